@@ -184,6 +184,24 @@ func ConstInt(v ssa.Value) (int64, bool) {
 		return ConstInt(c.X)
 	case *ssa.ChangeType:
 		return ConstInt(c.X)
+	case *ssa.BinOp:
+		// go/ssa folds constant expressions but not operations on locals that hold constants
+		x, okx := ConstInt(c.X)
+		y, oky := ConstInt(c.Y)
+		if okx && oky {
+			switch c.Op {
+			case token.ADD:
+				return x + y, true
+			case token.SUB:
+				return x - y, true
+			case token.MUL:
+				return x * y, true
+			case token.QUO:
+				if y != 0 {
+					return x / y, true
+				}
+			}
+		}
 	}
 	return 0, false
 }
